@@ -51,7 +51,85 @@ pub fn config_json(cfg: &StoreCfg, path: &Path, extra_merge: Option<serde_json::
         "sync": sync,
         "merge": merge,
     });
+    if CONFIG_VIA_SETTERS.load(std::sync::atomic::Ordering::SeqCst) {
+        return config_via_setters(&j);
+    }
     serde_json::from_value(j).expect("store configuration must deserialize")
+}
+
+/// When set (C18 does, per case), `config_json` builds its result with the setter API of
+/// `Config` instead of deserializing it - the other documented way to configure a store.
+pub static CONFIG_VIA_SETTERS: std::sync::atomic::AtomicBool = std::sync::atomic::AtomicBool::new(false);
+
+/// The configuration `j` describes, built with `Config::default()` and the public setters.  Only
+/// the merge policy comes through serde (its type is not exported, a user of the setter API
+/// keeps the default or reads it from a file); everything else present in `j` goes through its
+/// setter, everything absent keeps the default - as it does when deserialized.
+pub fn config_via_setters(j: &serde_json::Value) -> Config {
+    use bitcask::storage::bitcask::SyncStrategy;
+    let mut c: Config = match j["merge"].get("policy") {
+        Some(p) => serde_json::from_value(serde_json::json!({ "merge": { "policy": p } })).expect("policy must deserialize"),
+        None => Config::default(),
+    };
+    if let Some(p) = j["path"].as_str() {
+        c.path(p);
+    }
+    if let Some(n) = j["concurrency"].as_u64() {
+        c.concurrency(n as usize);
+    }
+    if let Some(n) = j["readers_cache_size"].as_u64() {
+        c.readers_cache_size(n as usize);
+    }
+    if let Some(n) = j["max_file_size"].as_u64() {
+        c.max_file_size(n);
+    }
+    match &j["sync"] {
+        serde_json::Value::String(s) if s == "always" => {
+            c.sync(SyncStrategy::Always);
+        }
+        serde_json::Value::String(s) if s == "none" => {
+            c.sync(SyncStrategy::None);
+        }
+        serde_json::Value::Object(m) => {
+            if let Some(n) = m.get("interval_ms").and_then(|v| v.as_u64()) {
+                c.sync(SyncStrategy::IntervalMs(n));
+            }
+        }
+        _ => {}
+    }
+    let m = &j["merge"];
+    if let Some(x) = m["triggers"].get("fragmentation").and_then(|v| v.as_f64()) {
+        c.merge_trigger_fragmentation(x);
+    }
+    if let Some(x) = m["triggers"].get("dead_bytes").and_then(|v| v.as_u64()) {
+        c.merge_trigger_dead_bytes(x);
+    }
+    if let Some(x) = m["thresholds"].get("fragmentation").and_then(|v| v.as_f64()) {
+        c.merge_threshold_fragmentation(x);
+    }
+    if let Some(x) = m["thresholds"].get("dead_bytes").and_then(|v| v.as_u64()) {
+        c.merge_threshold_dead_bytes(x);
+    }
+    if let Some(x) = m["thresholds"].get("small_file").and_then(|v| v.as_u64()) {
+        c.merge_threshold_small_file(x);
+    }
+    if let Some(x) = m.get("check_interval_ms").and_then(|v| v.as_u64()) {
+        c.merge_check_interval_ms(x);
+    }
+    if let Some(x) = m.get("check_jitter").and_then(|v| v.as_f64()) {
+        c.merge_check_jitter(x);
+    }
+    c
+}
+
+/// Both builds of the same settings, rendered with `Debug` (the fields are private).
+pub fn config_both_debug(cfg: &StoreCfg, path: &Path, extra_merge: Option<serde_json::Value>, sync: Option<serde_json::Value>) -> (String, String) {
+    let was = CONFIG_VIA_SETTERS.swap(false, std::sync::atomic::Ordering::SeqCst);
+    let a = format!("{:?}", config_json(cfg, path, extra_merge.clone(), sync.clone()));
+    CONFIG_VIA_SETTERS.store(true, std::sync::atomic::Ordering::SeqCst);
+    let b = format!("{:?}", config_json(cfg, path, extra_merge, sync));
+    CONFIG_VIA_SETTERS.store(was, std::sync::atomic::Ordering::SeqCst);
+    (a, b)
 }
 
 /// Number of live threads of this process whose name starts with `prefix` (comm is cut to 15 bytes).
